@@ -253,7 +253,9 @@ func c09CheckMethod(c *Ctx, rule, key string, f *ssa.Function, kind string, num 
 				if t.Op == "invoke" && strings.HasSuffix(t.Sym, ".Write") {
 					nW++
 					w, data := t.Args[0].unver(), t.Args[1].unver()
-					if !(w.Op == "field" && w.Sym == "writer" && w.Args[0].isParam(0) && data.Op == "field" && data.Sym == "scratch" && data.Args[0].isParam(0)) {
+					isScratch := data.Op == "field" && data.Sym == "scratch" && data.Args[0].isParam(0)
+					isEncoded := data.Key() == v.unver().Key() // the value of the second append itself (kept in a local)
+					if !(w.Op == "field" && w.Sym == "writer" && w.Args[0].isParam(0) && (isScratch || isEncoded)) {
 						valOK = false
 						found = "writes " + data.Key() + " to " + w.Key()
 					}
